@@ -1,9 +1,9 @@
 SPECIFICATION Spec
 CONSTANTS
- Fam = "gen"
- P1 = 1
+ Fam = "sensgen"
+ P1 = 0
  P2 = 0
- Dev = {}
+ Dev = {"TreeHeight"}
 INVARIANT Shape
 INVARIANT Final
 INVARIANT RoundTrip
